@@ -16,6 +16,10 @@
 (*  X03-KF3  reading a chart trims every run of its title                  *)
 (*  X03-KF4  a series formula is written with its sheet name in quotes     *)
 (*           only when the name holds a blank                              *)
+(*  X03-KF5  a picture's file name goes unescaped into the relationship    *)
+(*           target: with a '#' in it the target designates another part   *)
+(*  X03-KF6  a picture whose extension the writer knows no content type    *)
+(*           for is stored in a part without content type                  *)
 (***************************************************************************)
 EXTENDS Media, TraceBase
 
@@ -23,7 +27,7 @@ VARIABLES l,      \* index of the next event
           disk    \* per sheet: closure digest of its drawing in the file it was lazily loaded from ("" otherwise)
 tvars == <<sh, last, l, disk>>
 
-ImgOf(o) == [r1 |-> o.r1, c1 |-> o.c1, r2 |-> o.r2, c2 |-> o.c2, two |-> o.two, off |-> o.off, nm |-> o.nm, dg |-> o.dg]
+ImgOf(o) == [r1 |-> o.r1, c1 |-> o.c1, r2 |-> o.r2, c2 |-> o.c2, two |-> o.two, off |-> o.off, ext |-> o.ext, nm |-> o.nm, nk |-> o.nk, dg |-> o.dg]
 ChartOf(o) == [r1 |-> o.r1, c1 |-> o.c1, r2 |-> o.r2, c2 |-> o.c2, off |-> o.off, ct |-> o.ct, ser |-> o.ser,
                refs |-> o.refs, qn |-> o.qn, ti |-> o.ti, tt |-> o.tt]
 SheetOf(o) == [name |-> o.name, imgs |-> [i \in DOMAIN o.imgs |-> ImgOf(o.imgs[i])],
@@ -31,7 +35,7 @@ SheetOf(o) == [name |-> o.name, imgs |-> [i \in DOMAIN o.imgs |-> ImgOf(o.imgs[i
 SheetsOf(list) == [i \in DOMAIN list |-> SheetOf(list[i])]
 
 (* what is compared: everything but picture names and raw flags *)
-Vis(S) == [S EXCEPT !.imgs = [i \in DOMAIN S.imgs |-> [S.imgs[i] EXCEPT !.nm = ""]], !.raw = FALSE]
+Vis(S) == [S EXCEPT !.imgs = [i \in DOMAIN S.imgs |-> [S.imgs[i] EXCEPT !.nm = "", !.nk = ""]], !.raw = FALSE]
 VisW(W) == [s \in DOMAIN W |-> Vis(W[s])]
 (* the observed workbook with the raw flags of W (FALSE where W has no such sheet) *)
 Flagged(obs, W) == [s \in DOMAIN obs |-> [obs[s] EXCEPT !.raw = IF s \in DOMAIN W THEN W[s].raw ELSE FALSE]]
@@ -39,7 +43,7 @@ AllFlag(obs, b) == [s \in DOMAIN obs |-> [obs[s] EXCEPT !.raw = b]]
 NoDisk(W) == [s \in DOMAIN W |-> ""]
 DiskFor(W) == IF DOMAIN W = DOMAIN disk THEN disk ELSE NoDisk(W)
 
-NewImg(e) == [r1 |-> e.r, c1 |-> e.c, r2 |-> 0, c2 |-> 0, two |-> FALSE, off |-> <<0, 0, 0, 0>>, nm |-> e.nm, dg |-> e.dg]
+NewImg(e) == [r1 |-> e.r, c1 |-> e.c, r2 |-> 0, c2 |-> 0, two |-> FALSE, off |-> <<0, 0, 0, 0>>, ext |-> e.ext, nm |-> e.nm, nk |-> e.nk, dg |-> e.dg]
 NewChart(c) == [r1 |-> c.r1, c1 |-> c.c1, r2 |-> c.r2, c2 |-> c.c2, off |-> <<0, 0, 0, 0>>, ct |-> c.ct, ser |-> c.ser,
                 refs |-> c.refs, qn |-> c.qn, ti |-> c.ti, tt |-> c.tt]
 RectOfEv(e) == [r1 |-> e.r1, c1 |-> e.c1, r2 |-> e.r2, c2 |-> e.c2]
@@ -68,7 +72,7 @@ Expected(e) ==
     [] e.a = "AddChart"    -> [sh EXCEPT ![e.s] = AddChartS(@, NewChart(e.ch))]
     [] e.a = "RemoveImage" -> [sh EXCEPT ![e.s] = RemoveImageS(@, e.i)]
     [] e.a = "RemoveChart" -> [sh EXCEPT ![e.s] = RemoveChartS(@, e.i)]
-    [] e.a = "ChangeImage" -> [sh EXCEPT ![e.s] = ChangeImageS(@, e.i, e.nm, e.dg)]
+    [] e.a = "ChangeImage" -> [sh EXCEPT ![e.s] = ChangeImageS(@, e.i, e.nm, e.nk, e.dg, e.ext)]
     [] e.a = "MoveImage"   -> [sh EXCEPT ![e.s] = MoveImageS(@, e.i, e.r, e.c)]
     [] e.a = "MoveChart"   -> [sh EXCEPT ![e.s] = MoveChartS(@, e.i, RectOfEv(e))]
     [] e.a = "Insert"      -> [Base(e) EXCEPT ![e.s] = InsS(@, e.ax, e.p, e.n)]
@@ -138,19 +142,31 @@ ReloadStep(e, obs) ==
   LET byName == Written(sh, "name")
       c1 == IF KFOn("X03-KF1") THEN byName ELSE sh
       c2 == IF KFOn("X03-KF3") THEN Trimmed(c1) ELSE c1
+      kf5 == KFOn("X03-KF5") /\ HasNameKind(sh, "hash")
+      kf6 == KFOn("X03-KF6") /\ HasNameKind(sh, "ext")
+      kinds == {e.pkg.badk[i] : i \in DOMAIN e.pkg.badk}
+      k5 == {"orphan", "rid", "target"}
+      k6 == {"notype", "type"}
       valid == e.pkg.ok /\ e.pkg.bad = <<>>
+      excused == e.pkg.ok /\ kinds \subseteq ((IF kf5 THEN k5 ELSE {}) \cup (IF kf6 THEN k6 ELSE {}))
+      F(W) == IF kf5 THEN Unresolved(W) ELSE W      \* what a URI-resolving reader finds in the file
   IN
-  /\ IF valid THEN TRUE ELSE Mismatch(l, <<"impl", "package", e.pkg.ok, e.pkg.bad>>)
+  /\ IF \E s \in DOMAIN sh : sh[s].raw /\ disk[s] # "" THEN PrintT(<<"NOTE", "raw drawing compared", l>>) ELSE TRUE
+  /\ IF valid THEN TRUE
+     ELSE IF excused
+     THEN /\ (IF kinds \cap k5 # {} THEN KFHit("X03-KF5", l) ELSE TRUE)
+          /\ (IF kinds \cap k6 # {} THEN KFHit("X03-KF6", l) ELSE TRUE)
+     ELSE Mismatch(l, <<"impl", "package", e.pkg.ok, e.pkg.bad>>)
   /\ IF e.pkg.badf = <<>> THEN TRUE
      ELSE IF KFOn("X03-KF4") /\ QuoteNeeded(sh) THEN KFHit("X03-KF4", l)
      ELSE Mismatch(l, <<"impl", "formula", e.pkg.badf>>)
-  /\ IF ~valid \/ PkgMatches(e, sh) THEN TRUE
-     ELSE IF KFOn("X03-KF1") /\ PkgMatches(e, byName) THEN KFHit("X03-KF1", l)
-     ELSE Mismatch(l, <<"impl", "file", PkgDiff(e, sh)>>)
+  /\ IF ~(valid \/ excused) \/ PkgMatches(e, F(sh)) THEN TRUE
+     ELSE IF KFOn("X03-KF1") /\ PkgMatches(e, F(byName)) THEN KFHit("X03-KF1", l)
+     ELSE Mismatch(l, <<"impl", "file", PkgDiff(e, F(sh))>>)
   /\ IF e.ld # "ok"
      THEN sh' = Flagged(obs, sh) /\ disk' = DiskFor(obs) /\ Mismatch(l, <<"impl", "load", e.ld>>)
      ELSE /\ sh' = AllFlag(obs, e.lazy)
-          /\ disk' = IF e.lazy /\ valid /\ DOMAIN e.pkg.sheets = DOMAIN obs
+          /\ disk' = IF e.lazy /\ (valid \/ excused) /\ DOMAIN e.pkg.sheets = DOMAIN obs
                      THEN [s \in DOMAIN obs |-> e.pkg.sheets[s].closure] ELSE NoDisk(obs)
           /\ IF VisW(obs) = VisW(sh) THEN TRUE
              ELSE IF VisW(obs) = VisW(c2)
